@@ -1,0 +1,138 @@
+//go:build verif
+
+package controller
+
+// Hooks for the verification harness in /verif (build tag `verif`).
+// Add-only: nothing here is compiled without the tag and no existing line is changed.
+
+import (
+	"time"
+
+	"github.com/atlassian/escalator/pkg/cloudprovider"
+	"github.com/pkg/errors"
+	v1 "k8s.io/api/core/v1"
+	"k8s.io/apimachinery/pkg/api/resource"
+	v1lister "k8s.io/client-go/listers/core/v1"
+)
+
+// VerifNewController wires a Controller over injected listers, k8s client (opts.K8SClient) and cloud provider.
+// It repeats NewClient's lister selection and NewController's state construction without starting informers.
+func VerifNewController(opts Opts, cloud cloudprovider.CloudProvider, allPodLister v1lister.PodLister, allNodeLister v1lister.NodeLister) (*Controller, error) {
+	nodegroupListers := make(map[string]*NodeGroupLister)
+	for _, o := range opts.NodeGroups {
+		if o.Name == DefaultNodeGroup {
+			nodegroupListers[o.Name] = NewDefaultNodeGroupLister(allPodLister, allNodeLister, o)
+		} else {
+			nodegroupListers[o.Name] = NewNodeGroupLister(allPodLister, allNodeLister, o)
+		}
+	}
+	client := &Client{opts.K8SClient, nodegroupListers, allPodLister, allNodeLister}
+
+	nodegroupMap := make(map[string]*NodeGroupState)
+	for _, nodeGroupOpts := range opts.NodeGroups {
+		cloudProviderNodeGroup, ok := cloud.GetNodeGroup(nodeGroupOpts.CloudProviderGroupName)
+		if !ok {
+			return nil, errors.Errorf("could not find node group \"%v\" on cloud provider", nodeGroupOpts.CloudProviderGroupName)
+		}
+		if nodeGroupOpts.autoDiscoverMinMaxNodeOptions() {
+			nodeGroupOpts.MinNodes = int(cloudProviderNodeGroup.MinSize())
+			nodeGroupOpts.MaxNodes = int(cloudProviderNodeGroup.MaxSize())
+		}
+		nodegroupMap[nodeGroupOpts.Name] = &NodeGroupState{
+			Opts:            nodeGroupOpts,
+			NodeGroupLister: client.Listers[nodeGroupOpts.Name],
+			scaleUpLock: scaleLock{
+				minimumLockDuration: nodeGroupOpts.ScaleUpCoolDownPeriodDuration(),
+				nodegroup:           nodeGroupOpts.Name,
+			},
+			scaleDelta: 0,
+		}
+	}
+	return &Controller{
+		Client:        client,
+		Opts:          opts,
+		stopChan:      nil,
+		cloudProvider: cloud,
+		nodeGroups:    nodegroupMap,
+	}, nil
+}
+
+// VerifGroupState is the in-memory per-group state of the controller, as plain data.
+type VerifGroupState struct {
+	Locked            bool
+	LockTime          time.Time
+	Requested         int
+	MinLock           time.Duration
+	ScaleDelta        int
+	LastScaleOut      time.Time
+	CPUCapMilli       int64
+	MemCapBytes       int64
+	TaintTracker      []string
+	ForceTaintTracker []string
+	MinNodes          int
+	MaxNodes          int
+}
+
+// VerifGetState reads the in-memory state of a node group.
+func (c *Controller) VerifGetState(name string) VerifGroupState {
+	s := c.nodeGroups[name]
+	return VerifGroupState{
+		Locked:            s.scaleUpLock.isLocked,
+		LockTime:          s.scaleUpLock.lockTime,
+		Requested:         s.scaleUpLock.requestedNodes,
+		MinLock:           s.scaleUpLock.minimumLockDuration,
+		ScaleDelta:        s.scaleDelta,
+		LastScaleOut:      s.lastScaleOut,
+		CPUCapMilli:       s.cpuCapacity.MilliValue(),
+		MemCapBytes:       s.memCapacity.Value(),
+		TaintTracker:      append([]string(nil), s.taintTracker...),
+		ForceTaintTracker: append([]string(nil), s.forceTaintTracker...),
+		MinNodes:          s.Opts.MinNodes,
+		MaxNodes:          s.Opts.MaxNodes,
+	}
+}
+
+// VerifSetState overwrites the in-memory state of a node group (MinLock, MinNodes, MaxNodes are left alone).
+func (c *Controller) VerifSetState(name string, st VerifGroupState) {
+	s := c.nodeGroups[name]
+	s.scaleUpLock.isLocked = st.Locked
+	s.scaleUpLock.lockTime = st.LockTime
+	s.scaleUpLock.requestedNodes = st.Requested
+	s.scaleDelta = st.ScaleDelta
+	s.lastScaleOut = st.LastScaleOut
+	s.cpuCapacity = *resource.NewMilliQuantity(st.CPUCapMilli, resource.DecimalSI)
+	s.memCapacity = *resource.NewQuantity(st.MemCapBytes, resource.BinarySI)
+	s.taintTracker = append([]string(nil), st.TaintTracker...)
+	s.forceTaintTracker = append([]string(nil), st.ForceTaintTracker...)
+}
+
+// VerifShiftClock moves every timestamp the controller holds in memory d into the past (virtual time passes).
+func (c *Controller) VerifShiftClock(d time.Duration) {
+	for _, s := range c.nodeGroups {
+		if !s.scaleUpLock.lockTime.IsZero() {
+			s.scaleUpLock.lockTime = s.scaleUpLock.lockTime.Add(-d)
+		}
+		if !s.lastScaleOut.IsZero() {
+			s.lastScaleOut = s.lastScaleOut.Add(-d)
+		}
+	}
+}
+
+// VerifScaleNodeGroup runs the per-group scan body once.
+func (c *Controller) VerifScaleNodeGroup(name string) (int, error) {
+	return c.scaleNodeGroup(name, c.nodeGroups[name])
+}
+
+// VerifCalcPercentUsage wraps calcPercentUsage.
+func VerifCalcPercentUsage(cpuRequest, memRequest, cpuCapacity, memCapacity resource.Quantity, numberOfUntaintedNodes int64) (float64, float64, error) {
+	return calcPercentUsage(cpuRequest, memRequest, cpuCapacity, memCapacity, numberOfUntaintedNodes)
+}
+
+// VerifCalcScaleUpDelta wraps calcScaleUpDelta; the cached capacity and threshold are passed as plain numbers.
+func VerifCalcScaleUpDelta(allNodes []*v1.Node, cpuPercent, memPercent float64, cpuRequest, memRequest resource.Quantity,
+	threshold int, cachedCPUMilli, cachedMemBytes int64) (int, error) {
+	ng := &NodeGroupState{Opts: NodeGroupOptions{Name: "verif", ScaleUpThresholdPercent: threshold}}
+	ng.cpuCapacity = *resource.NewMilliQuantity(cachedCPUMilli, resource.DecimalSI)
+	ng.memCapacity = *resource.NewQuantity(cachedMemBytes, resource.BinarySI)
+	return calcScaleUpDelta(allNodes, cpuPercent, memPercent, cpuRequest, memRequest, ng)
+}
